@@ -68,6 +68,14 @@ def _elementwise(f_sym, f_float):
     return g
 
 
+def _sqrt_num(x, *a, **k):
+    """sqrt of a small Python integer stays exact (symbolic sqrt(2)), so that
+    chi's np.sqrt(2) and the reference's sqrt(2) are the same real number."""
+    if isinstance(x, int) and not isinstance(x, bool) and 0 <= x < 1000:
+        return Sym(T.fn('sqrt', T.const(x)))
+    return _np.sqrt(x, *a, **k)
+
+
 class SymArray(_np.ndarray):
     """ndarray whose boolean-mask indexing accepts symbolic booleans (they
     are decided, i.e. forked, element by element)."""
@@ -104,7 +112,7 @@ class NP(object):
             self.random = random
         self.log = _elementwise(lambda s: s.log(), _np.log)
         self.exp = _elementwise(lambda s: s.exp(), _np.exp)
-        self.sqrt = _elementwise(lambda s: s.sqrt(), _np.sqrt)
+        self.sqrt = _elementwise(lambda s: s.sqrt(), _sqrt_num)
         self.abs = self.absolute = _elementwise(lambda s: abs(s), _np.abs)
         self.isnan = _elementwise(lambda s: False, _np.isnan)
         self.isinf = _elementwise(lambda s: False, _np.isinf)
